@@ -1288,3 +1288,83 @@ def _nonzero(eng, func, args, kwargs, out, pre):
 @handler("sort", "topk", "unique", "_unique2", "argsort", "unique_dim", "unique_consecutive", "kthvalue", "median", "mode")
 def _datadep(eng, func, args, kwargs, out, pre):
     raise UnsupportedOp(f"data-dependent operator {func} on symbolic input")
+
+
+# ------------------------------------------------------------------ fused pointwise losses
+def _loss_reduce(eng, out, res, reduction):
+    if reduction == 0:
+        eng.set_terms(out, res)
+    else:
+        flat = list(res.reshape(-1))
+        tot = tm.addn(flat)
+        if reduction == 1:
+            tot = tm.mul(tm.const(Fraction(1, max(len(flat), 1))), tot)
+        r = np.empty((), dtype=object)
+        r[()] = tot
+        eng.set_terms(out, r)
+
+
+@handler("huber_loss")
+def _huber(eng, func, args, kwargs, out, pre):
+    reduction = args[2] if len(args) > 2 else kwargs.get("reduction", 1)
+    delta = tm.lift(args[3] if len(args) > 3 else kwargs.get("delta", 1.0))
+    half = tm.const(Fraction(1, 2))
+
+    def f(x, y):
+        d = tm.sub(x, y)
+        a = tm.abs_(d)
+        return tm.ite(tm.le(a, delta), tm.mul(half, tm.mul(d, d)), tm.mul(delta, tm.sub(a, tm.mul(half, delta))))
+
+    a, b = obj(pre.a(0)), obj(pre.a(1))
+    _loss_reduce(eng, out, vec(f, 2)(a, b), reduction)
+
+
+@handler("smooth_l1_loss")
+def _smooth_l1(eng, func, args, kwargs, out, pre):
+    reduction = args[2] if len(args) > 2 else kwargs.get("reduction", 1)
+    beta = tm.lift(args[3] if len(args) > 3 else kwargs.get("beta", 1.0))
+    half = tm.const(Fraction(1, 2))
+
+    def f(x, y):
+        d = tm.sub(x, y)
+        a = tm.abs_(d)
+        if tm.isc(beta) and tm.cval(beta) == 0:
+            return a
+        return tm.ite(tm.lt(a, beta), tm.div(tm.mul(half, tm.mul(d, d)), beta), tm.sub(a, tm.mul(half, beta)))
+
+    a, b = obj(pre.a(0)), obj(pre.a(1))
+    _loss_reduce(eng, out, vec(f, 2)(a, b), reduction)
+
+
+@handler("mse_loss")
+def _mse(eng, func, args, kwargs, out, pre):
+    reduction = args[2] if len(args) > 2 else kwargs.get("reduction", 1)
+    a, b = obj(pre.a(0)), obj(pre.a(1))
+    _loss_reduce(eng, out, vec(lambda x, y: tm.mul(tm.sub(x, y), tm.sub(x, y)), 2)(a, b), reduction)
+
+
+@handler("l1_loss")
+def _l1(eng, func, args, kwargs, out, pre):
+    reduction = args[2] if len(args) > 2 else kwargs.get("reduction", 1)
+    a, b = obj(pre.a(0)), obj(pre.a(1))
+    _loss_reduce(eng, out, vec(lambda x, y: tm.abs_(tm.sub(x, y)), 2)(a, b), reduction)
+
+
+@handler("_softmax")
+def _softmax(eng, func, args, kwargs, out, pre):
+    a = obj(pre.a(0))
+    dim = args[1]
+    am = np.moveaxis(a, dim, -1)
+    res = np.empty(am.shape, dtype=object)
+    for pos in np.ndindex(*am.shape[:-1]):
+        es = [tm.fn("exp", x) for x in am[pos]]
+        tot = tm.addn(es)
+        for j, e in enumerate(es):
+            res[pos + (j,)] = tm.div(e, tot)
+    eng.set_terms(out, np.moveaxis(res, -1, dim))
+
+
+@handler("log_sigmoid_forward")
+def _logsigmoid(eng, func, args, kwargs, out, pre):
+    a = obj(pre.a(0))
+    eng.set_terms(out[0], vec(lambda x: tm.fn("log", tm.fn("sigmoid", x)), 1)(a))
